@@ -134,14 +134,19 @@ class Ctx:
         self._cur_nontrivial = bool(cond)
 
     # -- called by runner -------------------------------------------------
-    def begin(self):
+    def begin(self, case=None):
         self._cur_tags = set()
         self._cur_nontrivial = False
+        # the call form (keywords / positional in the documented order) is a function of the case
+        from vlib import callforms
+        self._cur_digest = codec.digest(case) if case is not None else None
+        callforms.set_mode(int(self._cur_digest[:6], 16) if self._cur_digest else 0)
+        self._cur_tags.add(f"call_form:{callforms.get_mode()}")
 
     def end(self, case):
         self.evaluations += 1
         self.tags.update(self._cur_tags)
-        d = codec.digest(case)
+        d = getattr(self, "_cur_digest", None) or codec.digest(case)
         if self._cur_nontrivial:
             self.nontrivial.add(d)
             if self.first_sample is None:
@@ -253,7 +258,7 @@ def _run_hyp(sc, tier, seed, shard, nshards):
         elif now - t0 > budget:
             ctx.budget_skipped += 1
             return
-        ctx.begin()
+        ctx.begin(case)
         try:
             sc.body(case, ctx)
         except Skip as s:
@@ -307,7 +312,7 @@ def _run_enum(sc, tier, seed, shard, nshards):
                 complete = False
                 ctx.budget_skipped += 1
                 break
-            ctx.begin()
+            ctx.begin(case)
             try:
                 sc.body(case, ctx)
             except Skip as s:
@@ -435,7 +440,7 @@ def replay_file(path):
     sc = next(s for s in REGISTRY[prop] if s.name == rec["subcheck"])
     case = codec.decode(rec["case"])
     ctx = Ctx("quick")
-    ctx.begin()
+    ctx.begin(case)
     try:
         sc.body(case, ctx)
     except Skip as s:
